@@ -284,7 +284,14 @@ class Exec:
             conds.append((t, acc, rhs))
             # python value semantics: and -> (rhs if truthy(acc) else acc); or -> (acc if truthy(acc) else rhs)
             try:
-                acc = ite(t, rhs, acc) if isinstance(node.op, ast.And) else ite(t, acc, rhs)
+                if isinstance(node.op, ast.Or) and isinstance(acc, PyGuard):
+                    # (c and v) or rhs: when the left side is truthy its value is v
+                    acc = ite(t, acc.val, rhs)
+                elif isinstance(node.op, ast.And) and isinstance(acc, V) and acc.ty is BOOL and isinstance(lift(rhs), V) \
+                        and lift(rhs).ty is not BOOL:
+                    acc = PyGuard(t, lift(rhs))
+                else:
+                    acc = ite(t, rhs, acc) if isinstance(node.op, ast.And) else ite(t, acc, rhs)
             except Unsupported:
                 # fall back to boolean result (sufficient in test positions)
                 tr = truthy(rhs)
@@ -644,6 +651,15 @@ class Exec:
                 target = self.getattr_(recv, f.attr, st, node)
                 return self.call_value(target, node, st)
             return self.call_method(recv, recv_node, f.attr, node, st)
+        if isinstance(f, ast.Name) and f.id == "map" and "map" not in st.env and len(node.args) == 2 and not node.keywords \
+                and isinstance(node.args[0], ast.Lambda) and len(node.args[0].args.args) == 1 and not node.args[0].args.defaults:
+            # map(lambda x: E, xs)  ==  [E for x in xs]   (same generated fold function as that comprehension)
+            lam = node.args[0]
+            comp = ast.ListComp(elt=lam.body, generators=[ast.comprehension(
+                target=ast.Name(id=lam.args.args[0].arg, ctx=ast.Store()), iter=node.args[1], ifs=[], is_async=0)])
+            ast.copy_location(comp, node)
+            ast.fix_missing_locations(comp)
+            return self.ev(comp, st)
         target = self.ev(f, st)
         return self.call_value(target, node, st)
 
@@ -857,7 +873,13 @@ class Exec:
                 if isinstance(cur, V) and cur.ty.mutable and isinstance(val, PyTup):
                     decl = cur.ty
             if decl is not None:
-                val = coerce(val, decl)
+                try:
+                    val = coerce(val, decl)
+                except Unsupported:
+                    # the declaration types literals (`res = []`); rebinding the name to a value of another, fully known type
+                    # (`res = list(map(...))`) is ordinary python
+                    if not isinstance(lift(val), V):
+                        raise
             st.env[target.id] = lift(val)
             if target.id in st.env.get("__aliased__", ()):
                 st.env["__aliased__"] = frozenset(set(st.env["__aliased__"]) - {target.id})
@@ -894,6 +916,14 @@ class Exec:
                 if f is None:
                     raise Unsupported("record key %r" % (key,))
                 nv = V(base.ty, base.ty.set(base.t, f, coerce(val, base.ty.fields[f]).t))
+            elif isinstance(base, V) and isinstance(base.ty, TupleT) and getattr(base.ty, "item_store", False):
+                # a python list of fixed shape declared as a tuple type in the sidecar (`row = [lo, hi]; row[1] = v`)
+                i = z3.simplify(self.evz(target.slice, st, INT))
+                if not z3.is_int_value(i) or not (0 <= i.as_long() < len(base.ty.elems)):
+                    raise Unsupported("store into a fixed-shape list at a non-constant index (line %d)" % line)
+                parts = [base.ty.get(base.t, j) for j in range(len(base.ty.elems))]
+                parts[i.as_long()] = coerce(val, base.ty.elems[i.as_long()]).t
+                nv = V(base.ty, base.ty.mk(*parts))
             elif isinstance(base, V) and isinstance(base.ty, DictT):
                 k = self.evz(target.slice, st, base.ty.key)
                 nv = V(base.ty, base.ty.fn("set")(base.t, k, coerce(val, base.ty.val).t))
